@@ -173,6 +173,8 @@ func TestSendPath(t *testing.T) {
 		var failure string
 		if s.Kind == "gate" {
 			o, failure = RunGate(&s)
+		} else if s.Kind == "midser" {
+			o, failure = RunMidSer(&s)
 		} else {
 			unwatch := watch(s.ID)
 			o, failure = RunStress(t, &s)
